@@ -1314,7 +1314,8 @@ func (ctx Ctx) exprSpecial(e ast.Expr, isSpecial bool) coq.Expr {
 	case *ast.UnaryExpr:
 		return ctx.unaryExpr(e)
 	case *ast.ParenExpr:
-		return ctx.expr(e.X)
+		// parentheses do not change whether a map lookup is two-valued
+		return ctx.exprSpecial(e.X, isSpecial)
 	case *ast.StarExpr:
 		return ctx.derefExpr(e.X)
 	case *ast.TypeAssertExpr:
@@ -1843,7 +1844,8 @@ func (ctx Ctx) multipleAssignStmt(s *ast.AssignStmt) coq.Binding {
 	if len(s.Rhs) > 1 {
 		ctx.unsupported(s, "multiple assignments on right hand side")
 	}
-	rhs := ctx.expr(s.Rhs[0])
+	// v, ok = m[k] is the two-valued form of the map lookup, as in v, ok := m[k]
+	rhs := ctx.exprSpecial(s.Rhs[0], len(s.Lhs) == 2)
 
 	if s.Tok != token.ASSIGN {
 		// This should be invalid Go syntax anyway
